@@ -1117,7 +1117,10 @@ class SingleSiteDMRGEngine(DMRGEngine):
                 theta.ireplace_label('(p0.vR)', '(p1.vR)')
                 theta = npc.tensordot(next_A, theta, axes=['vR', 'vL'])
                 i0 = self.i0 - 1
-            qtotal_LR = [self.psi.get_B(i0, form=None).qtotal, self.psi.get_B(i0 + 1, form=None).qtotal]
+            # as in the two-site engine: keep the qtotal of the left tensor, the right one takes the rest
+            # (the sum of the two old qtotal equals theta.qtotal only modulo the `mod` of the charges)
+            old_BL_qtotal = self.psi.get_B(i0, form=None).qtotal
+            qtotal_LR = [old_BL_qtotal, theta.qtotal - old_BL_qtotal]
             U, S, VH, err, S_a = mixer.mixed_svd_2site(
                 engine=self, theta=theta, i0=i0, mix_left=update_LP, mix_right=update_RP, qtotal_LR=qtotal_LR
             )
